@@ -40,8 +40,12 @@ func init() {
 // and lists, so deferred work can hide at every level.
 func mutModel() *model.Schema {
 	N := model.Named
-	m := &model.Schema{Query: "Q", Mutation: "M", Types: []*model.TypeDef{
-		{Kind: model.Object, Name: "R", Fields: []*model.FieldDef{
+	m := &model.Schema{Query: "Q", Mutation: "M", Extra: []string{"R2"}, Types: []*model.TypeDef{
+		// abstract results: their sub-plans exist only per runtime type (planned lazily)
+		{Kind: model.Interface, Name: "I", Fields: []*model.FieldDef{{Name: "v", Type: N("Int")}, {Name: "w", Type: N("String")}}},
+		{Kind: model.Object, Name: "R2", Interfaces: []string{"I"}, Fields: []*model.FieldDef{{Name: "v", Type: N("Int")}, {Name: "w", Type: N("String")}, {Name: "only2", Type: N("Int")}, {Name: "back", Type: N("I")}}},
+		{Kind: model.Union, Name: "U", Members: []string{"R", "R2"}},
+		{Kind: model.Object, Name: "R", Interfaces: []string{"I"}, Fields: []*model.FieldDef{
 			{Name: "v", Type: N("Int")}, {Name: "w", Type: N("String")}, {Name: "sub", Type: N("R")}, {Name: "subs", Type: model.ListOf(N("R"))},
 			{Name: "req", Type: model.NonNull(N("Int"))},
 		}},
@@ -49,6 +53,7 @@ func mutModel() *model.Schema {
 		{Kind: model.Object, Name: "M", Fields: []*model.FieldDef{
 			{Name: "a", Type: N("R")}, {Name: "b", Type: N("R")}, {Name: "c", Type: model.ListOf(N("R"))}, {Name: "d", Type: N("Int")},
 			{Name: "e", Type: N("R"), Args: []*model.InputDef{{Name: "n", Type: N("Int")}}}, {Name: "f", Type: model.NonNull(N("R"))},
+			{Name: "i", Type: N("I")}, {Name: "u", Type: N("U")}, {Name: "li", Type: model.ListOf(N("I"))}, {Name: "lu", Type: model.ListOf(model.NonNull(N("U")))},
 		}},
 	}}
 	m.Reindex()
